@@ -50,7 +50,10 @@ def strategy_value(hostile: bool = True, max_ticks: int = 128):
     return st.one_of(*opts)
 
 
-def strategy_spec(hostile: bool = True, styles=("ctx", "ctx", "legacy", "obj"), max_ticks: int = 128):
+ALL_STYLES = ("ctx", "ctx", "ctx", "legacy", "legacy", "obj", "ctx_defaults", "ctx_kwonly", "partial", "lambda")
+
+
+def strategy_spec(hostile: bool = True, styles=ALL_STYLES, max_ticks: int = 128):
     return st.fixed_dictionaries(
         {
             "vals": st.lists(strategy_value(hostile, max_ticks), min_size=1, max_size=4),
@@ -78,6 +81,12 @@ def script_entry(draw, p):
         e["dur"] = draw(st.one_of(st.integers(0, 4), st.integers(0, p.get("max_dur", 48))))
     if kind in ("exc", "res", "copen", "rexh"):
         e["klass"] = draw(klass_st(p.get("p_retryable", 0.7)))
+    if kind == "exc" and chance(draw, p.get("etypes", 0.25), "etype"):
+        e["etype"] = draw(st.sampled_from(["TimeoutError", "ConnectionError", "KeyError", "AssertionError", "ValueError", "OSError"]))
+    if kind in ("res", "ok") and chance(draw, p.get("odd_results", 0.2), "rval"):
+        e["rval"] = draw(st.sampled_from(["none", "falsy", "falsy"]))
+    if kind in ("exc", "res") and p.get("classifier_time") and chance(draw, p["classifier_time"], "cdur"):
+        e["cdur"] = draw(st.sampled_from([1, 2, 4, 16, 64]))
     if kind in ("exc", "res"):
         if chance(draw, 0.1, "s4"):
             e["ra"] = draw(st.sampled_from([0.0, 0.5, 1.5, 3, -1.0, NAN, INF]))
@@ -136,7 +145,7 @@ def retry_cfg(draw, p):
         # caps mostly on the retryable classes (a cap on a non-retryable class can never matter)
         cfg["per_class"] = draw(st.dictionaries(st.sampled_from(RETRYABLE * 3 + ALL), st.sampled_from([0, 1, 1, 2, 2, 3, 4]), max_size=3))
     hostile = p.get("hostile_values", True)
-    styles = p.get("styles", ("ctx", "ctx", "legacy", "obj"))
+    styles = p.get("styles", ALL_STYLES)
     max_ticks = p.get("max_delay_ticks", 128)
     nstrat = draw(st.integers(0, 3))
     if nstrat:
@@ -147,7 +156,7 @@ def retry_cfg(draw, p):
         cfg["default"] = draw(strategy_spec(hostile, styles, max_ticks))
     at = p.get("attempt_timeout", 0)
     if at and chance(draw, at, "attempt-timeout"):
-        cfg["attempt_timeout"] = 3600.0  # never fires (virtual time); selects the thread-pool / wait_for code path
+        cfg["attempt_timeout"] = 5.0  # real seconds on the sync thread-pool path (never fires: the scripted operation returns at once; a hang ends after 5 s); virtual for wait_for
     cfg["result_classifier"] = p.get("results", True) and chance(draw, 0.9, "s12")
     b = p.get("budget", 0.3)
     if b and chance(draw, b, "s13"):
